@@ -9,6 +9,7 @@ import NcVerif.Driver.RpcErrorD
 import NcVerif.Driver.LockD
 import NcVerif.Driver.OpsD
 import NcVerif.Driver.IsoD
+import NcVerif.Driver.ConnectD
 open NcVerif.Driver
 
 structure DState where
@@ -22,6 +23,7 @@ def stepLine (st : DState) (line : String) : DState × String :=
   | "lk" :: rest => (st, lockCmd rest)
   | "ops" :: rest => (st, opsCmd rest)
   | "iso" :: rest => (st, isoCmd rest)
+  | "cn" :: rest => (st, connectCmd rest)
   | "xt" :: rest => (st, xmlTextCmd rest)
   | "ss" :: rest => let (s', out) := sessionCmd st.sess rest; ({ st with sess := s' }, out)
   | _ => (st, "bad-model")
